@@ -422,6 +422,7 @@ var Mutants = map[string][]Mutant{
 		{"Linebreak looks at items[b+1] unguarded", "text/linebreak.go", `\(len\(lb\.items\) <= b\+1 \|\| lb\.items\[b\+1\]\.Type != PenaltyType\)`, `lb.items[b+1].Type != PenaltyType`, "E4.neighbour-guard"},
 	},
 	"C18": {
+		{"high byte of the glyph code written past the escape chain (seed C18r)", "renderers/pdf/writer.go", `for _, c := range \[\]uint8\{uint8\(\(glyphID & 0xff00\) >> 8\), uint8\(glyphID & 0x00ff\)\} \{`, "w.WriteByte(uint8(glyphID >> 8))\n\t\t\t\tfor _, c := range []uint8{uint8(glyphID & 0x00ff)} {", "E5.string-bytes-escaped"},
 		{"Tf skipped when the direction changes to a horizontal one (seed C18q)", "renderers/pdf/writer.go", `w\.fontSize != size \|\| w\.fontDirection != direction \{`, "w.fontSize != size || (direction == canvasText.TopToBottom || direction == canvasText.BottomToTop) && w.fontDirection != direction {", "E5.memo-test-covers-fields"},
 		{"pending widths flushed only before a run that differs from /DW (seed C18p)", "renderers/pdf/writer.go", `\n\t\t\t\tif i < j \{\n`, "\n\t\t\t\tif i < j && widths[j] != DW {\n", "E5.w-array-pending-flushed"},
 		{"CIDToGIDMap high byte taken from the code", "renderers/pdf/writer.go", `cidToGIDMap\[j\+0\] = byte\(\(glyphID & 0xFF00\) >> 8\)`, "cidToGIDMap[j+0] = byte((subsetGlyphID & 0xFF00) >> 8)", "E5.cid-to-gid-entries"},
